@@ -572,6 +572,11 @@ func (vc *FnVC) translate() (err error) {
 		}
 		memIn[b] = m
 		vc.cur = m
+		if lit == "false" {
+			// unreachable (e.g. the recover block of a function whose deferred calls never recover)
+			delete(vc.blockLit, b)
+			continue
+		}
 		for idx, in := range b.Instrs {
 			vc.curIdx = idx
 			vc.instr(in)
